@@ -5,6 +5,7 @@
   every poll predicate (`cfg.subMask`) and every schedule of what the outside world presents at each poll.
 -/
 import Jence.Lemmas.Top
+import Jence.Lemmas.Cadence
 namespace Jence.Props.C09
 open Jence
 
@@ -85,5 +86,33 @@ theorem first_poll_at_node_zero (cfg : Cfg) (tt : TT) (rep : RepTable) :
     ((Env.fresh tt rep).maybePoll cfg) = (Env.fresh tt rep).poll cfg := by
   unfold Env.maybePoll
   simp [Env.fresh]
+
+/-- the poll test `nodes & INPUT_POLL_INTERVAL == 0` is "the counter is a multiple of `INPUT_POLL_INTERVAL + 1`"
+    (re-checked when the constant is re-tuned: it must be one less than a power of two) -/
+theorem poll_test_is_multiple (n : Nat) : n &&& Gen.INPUT_POLL_INTERVAL = n % (Gen.INPUT_POLL_INTERVAL + 1) := by
+  have h : Gen.INPUT_POLL_INTERVAL = 2 ^ 14 - 1 := by decide
+  rw [h, Nat.and_two_pow_sub_one_eq_mod]
+
+/-- **T9.1** The search looks for a stop request at least once every `INPUT_POLL_INTERVAL + 1` nodes: at the end of every
+    `search` that was not stopped - every rules instance, position, depth, table, history, poll predicate and input
+    schedule - every window of `INPUT_POLL_INTERVAL + 1` consecutive values of the node counter below the final count
+    contains a value at which input was polled (`pollLog` records the counter at each poll). The induction
+    (`Lemmas/Cadence`) rests on `maybe_poll` being called with the counter's current value right before every increment,
+    in `negamax` as in `quiescence`; nodes that return early (repetition, table hit, ply cap) neither poll nor count. -/
+theorem polled_in_every_window (R : Rules) (cfg : Cfg) (g : Game) (depth : Int) (tt : TT) (rep : RepTable)
+    (hrun : (search R cfg g depth tt rep).2.stopping = false) (a : Nat)
+    (ha : a + (Gen.INPUT_POLL_INTERVAL + 1) ≤ (search R cfg g depth tt rep).2.nodes) :
+    ∃ n ∈ (search R cfg g depth tt rep).2.pollLog, a ≤ n ∧ n < a + (Gen.INPUT_POLL_INTERVAL + 1) := by
+  have hc := search_cad R cfg g depth tt rep hrun
+  have hI : Gen.INPUT_POLL_INTERVAL + 1 = 16384 := by decide
+  rw [hI] at ha ⊢
+  -- the multiple of 16384 inside the window
+  refine ⟨(a + 16383) / 16384 * 16384, hc _ (by omega) ?_, by omega, by omega⟩
+  rw [poll_test_is_multiple, hI]
+  exact Nat.mul_mod_left _ _
+
+/-- the invariant behind it, for a search that is still running at any node of the main search -/
+theorem cadence_invariant (R : Rules) (cfg : Cfg) (fuel : Nat) (g : Game) (depth : Nat) (alpha beta : Int) (e : Env) (h : Cad e) :
+    Cad (negamax R cfg fuel g depth alpha beta e).2 := negamax_cad R cfg fuel g depth alpha beta e h
 
 end Jence.Props.C09
